@@ -52,23 +52,30 @@ class Section(dict):
     def __str__(self, pre=''):
         result = []
 
+        def quote(text):
+            # '$' starts a substitution when the text is read back
+            return text.replace('$', '$$')
+
         if self.imports:
             for pkgname in self.imports:
-                result.append('%import ' + pkgname)
+                result.append('%import ' + quote(pkgname))
             result.append('')
 
         if self.type:
             if self.name:
-                start = f'{pre}<{self.type} {self.name}>'
+                start = f'{pre}<{self.type} {self.name}'
             else:
-                start = f'{pre}<{self.type}>'
-            result.append(start)
+                start = f'{pre}<{self.type}'
+            if start.endswith('/'):
+                # '/>' would be read back as the empty-section form
+                start += ' '
+            result.append(start + '>')
             pre += '  '
 
         lst = sorted(self.items())
         for name, values in lst:
             for value in values:
-                result.append(f'{pre}{name} {value}')
+                result.append(f'{pre}{name} {quote(value)}')
 
         if self.sections and self:
             result.append('')
